@@ -294,11 +294,19 @@ pub fn synthetic_history(rng: &mut Rng) -> Vec<Op> {
     let nkeys = rng.range(1, 6) as usize;
     // keys that collide in their low bits (a truncated index would confuse them)
     let base = rng.next_u64();
+    // one history in eight uses the keys a table might reserve for its own purposes (0 as an
+    // "empty" marker, all ones, 1)
+    let special = rng.chance(1, 8);
     let keys: Vec<u64> = (0..nkeys)
-        .map(|i| match rng.below(3) {
-            0 => base ^ ((i as u64) << 32),
-            1 => base ^ ((i as u64) << 48),
-            _ => rng.next_u64(),
+        .map(|i| {
+            if special && i < 3 {
+                return [0u64, u64::MAX, 1][i];
+            }
+            match rng.below(3) {
+                0 => base ^ ((i as u64) << 32),
+                1 => base ^ ((i as u64) << 48),
+                _ => rng.next_u64(),
+            }
         })
         .collect();
     let n = rng.range(1, 400);
